@@ -453,7 +453,8 @@ func marshalTo(read *thrift.BinaryProtocol, write *thrift.BinaryProtocol, from *
 	switch t := to.Type(); t {
 	case thrift.STRUCT:
 		if from == to {
-			return nil
+			// identical descriptor: the value is taken over as it is
+			goto skip_val
 		}
 		var req *thrift.RequiresBitmap
 		if !opts.NotCheckRequireNess {
